@@ -222,9 +222,6 @@ def reader_row(q, cx, fn, lv, tag, body, rel_depth, line_id=None):
     line_id = line_id if line_id is not None else lv.line_id
     d = {"tag": tag, "depth": rel_depth, "problems": [], "arms": [], "adds": None, "comment": None, "recurse": None, "body": body,
          "level": lv, "default_err": None, "match": None}
-    if lv is None:
-        # the CLASS row: only the statements of parse_class outside the level closures
-        walk_body = body
     ops = RD.row_ops(fn, body, line_id)
     d["ops"] = ops
     for k, n, f in ops:
@@ -513,9 +510,7 @@ def r12_2(q, R, cx, spec):
                 if n.get("k") == "mcall" and n["name"] in U.SORTS and pos[id(n)] > fill_end and pos[id(n)] < pos[id(lit)]:
                     ch = ffn.trace(n["recv"])
                     # receiver: an element of the values of child_map
-                    r = H.recv_root(n["recv"])
                     vals = [h for h in ch.hops if h[0] == "mapiter"]
-                    root_local = ch.root[0] == "call" or True
                     if vals and vals[-1][1] == "v" and ch.hops[-1] == ("elem",):
                         # rooted in the child_map local?
                         base = None
